@@ -307,6 +307,9 @@ def run_model(case_lines):
     return out
 
 
+HISTORY = {}
+
+
 def run_impl(bdir, case_lines, timeout=600):
     """runs the harness; a sanitizer abort / crash is a result: returns (outputs, crashes) where
     crashes = [(case_id, case_line, stderr_excerpt, returncode)]"""
@@ -339,6 +342,7 @@ def run_impl(bdir, case_lines, timeout=600):
             crashes.append(("<exit>", "", se[-3000:], rc))
             break
         crashes.append((remaining[idx].split(" ", 1)[0], remaining[idx], se[-3000:], rc))
+        HISTORY[remaining[idx]] = remaining[:idx]   # what the same process had executed before it died
         remaining = remaining[idx + 1:]
     return outs, crashes
 
